@@ -17,7 +17,8 @@ PROPS = {
         level='proof',
         technique='contract-based deductive verification (Verus) of the verbatim-extracted BufferQueue / SmallCharSet code',
     ),
-    'C15': dict(verus=['u_small', 'u_bq', 'u_xtok'], level='proof', technique='contract-based deductive verification (Verus) of the verbatim-extracted XmlTokenizer input primitives and state machine against the normalised pending stream (stream-level contracts, fast-path loop invariant, call-site set preconditions)'),
-    'C17': dict(verus=['u_xser'], level='proof', technique='contract-based deductive verification (Verus) of the verbatim-extracted XmlSerializer: output equals a spec escape function with proved reversibility/confinement lemmas; namespace-scope postconditions (every prefix of the element and its attributes bound by the declarations actually written; end_elem leaves enclosing scopes alone)'),
+    'C15': dict(verus=['u_small', 'u_bq', 'u_xtok'], kani_thorough=['b_xtok'], level='proof', technique='contract-based deductive verification (Verus) of the verbatim-extracted XmlTokenizer input primitives and state machine against the normalised pending stream (stream-level contracts, fast-path loop invariant, call-site set preconditions)'),
+    'C17': dict(verus=['u_xser'], kani_quick=['b_xrt'], level='proof', technique='contract-based deductive verification (Verus) of the verbatim-extracted XmlSerializer: output equals a spec escape function with proved reversibility/confinement lemmas; namespace-scope postconditions (every prefix of the element and its attributes bound by the declarations actually written; end_elem leaves enclosing scopes alone)'),
+    'C19': dict(verus=['u_enc'], kani_quick=['b_henc'], level='proof', technique='contract-based deductive verification (Verus) of the verbatim-extracted extract_a_character_encoding_from_a_meta_element against a transcription of the WHATWG algorithm; bounded sweep of the real tree builder for which elements raise an indicator'),
     'C18': dict(verus=['u_trace'], level='proof', technique='contract-based deductive verification (Verus): trace_handles against a handle set generated from the struct definition'),
 }
